@@ -105,7 +105,100 @@ def broadcast(ctx, binary):
     validate_trace(ctx, "BroadcastTrace.tla", "BroadcastTrace.cfg", tf, res["stats"]["rounds"], "broadcast", "TestBroadcastConcurrent")
 
 
-PRIMS = [broadcast]
+# ------------------------------------------------------------------------------- throttler
+def throttler(ctx, binary):
+    thorough = not ctx.quick()
+    r = ctx.tlc_check("prims", "Throttler.tla", "Throttler_thorough.cfg" if thorough else "Throttler_quick.cfg", timeout=2400,
+                      coverage=thorough, label="Throttler safety+deadlock n=2 q=1")
+    if thorough:
+        vlib.require_actions_covered(r, ignore=("ObsReadCnt", "ObsReadSem"))
+    ctx.tlc_check("prims", "Throttler.tla", "Throttler_zeroq_thorough.cfg" if thorough else "Throttler_zeroq.cfg", timeout=1200, label="Throttler safety+deadlock n=1 q=0")
+    ctx.tlc_check("prims", "Throttler.tla", "Throttler_live.cfg", timeout=1200, label="Throttler liveness (fair)")
+    # design-level observations about the code as it is: expected violations, never a verdict
+    for cfg, what in (("Throttler_obs.cfg", "QueueLen() can be negative (two unsynchronised reads)"),
+                      ("Throttler_obs2.cfg", "a call can be rejected while fewer than N+Q accepted calls exist (calls being rejected are counted)")):
+        r = ctx.tlc_check("prims", "Throttler.tla", cfg, timeout=600, expect_violation=True, label="Throttler observation " + cfg)
+        if r["ok"]:
+            raise vlib.Broken("expected-violation run %s no longer violates: the model changed" % cfg)
+        print("OBSERVATION property=G06 (TLC, design level, not a verdict): throttler: %s" % what, flush=True)
+    nv = len(ctx.violations) + len(ctx.known_hits)
+    nb = 0
+    shapes = [(2, 2), (1, 0), (1, 1)] if not thorough else [(2, 2), (1, 0), (1, 1), (3, 1), (2, 0)]
+    for i, (n, q) in enumerate(shapes):
+        cfg = _cfg({"N": n, "Q": q, "NCalls": 12, "WithObs": "FALSE", "MaxSteps": 30}, "MBTInit", "MBTNext")
+        beh = []
+        for j in range(3 if thorough else 1):
+            beh += ctx.tlc_simulate("prims", "ThrottlerMBT.tla", "Throttler_simgen.cfg", depth=(30000 if thorough else 9000),
+                                    seed=ctx.seed * 1000 + 100 + i * 10 + j, files={"Throttler_simgen.cfg": cfg})
+        nb += len(beh)
+        ctx.absorb(ctx.run_engine(binary, "TestThrottlerReplay", {"n": n, "q": q, "behaviours": beh}), "prims", "TestThrottlerReplay")
+    ctx.coverage["throttler_behaviours_replayed"] = nb
+    if diverged(ctx, nv, "throttler"):
+        return
+    tf = os.path.join(ctx.scratch, "throttler.ndjson")
+    res = ctx.run_engine(binary, "TestThrottlerConcurrent",
+                         {"out": tf, "trace_rounds": 30 if thorough else 10, "monitor_rounds": 200 if thorough else 40}, timeout=1500)
+    ctx.absorb(res, "prims", "TestThrottlerConcurrent")
+    validate_trace(ctx, "ThrottlerTrace.tla", "ThrottlerTrace.cfg", tf, res["stats"]["rounds"], "throttler", "TestThrottlerConcurrent")
+
+
+# ------------------------------------------------------------------------------- semaphore
+def semaphore(ctx, binary):
+    thorough = not ctx.quick()
+    ctx.tlc_check("prims", "Semaphore.tla", "Semaphore_quick.cfg", timeout=1200, label="Semaphore safety size=2")
+    ctx.tlc_check("prims", "Semaphore.tla", "Semaphore_size1.cfg", timeout=1200, label="Semaphore safety size=1")
+    ctx.tlc_check("prims", "Semaphore.tla", "Semaphore_live.cfg", timeout=1200, label="Semaphore liveness (fair)")
+    nv = len(ctx.violations) + len(ctx.known_hits)
+    nb = 0
+    for i, size in enumerate([2, 1] if not thorough else [2, 1, 3]):
+        cfg = _cfg({"Size": size, "NCalls": 12, "MaxPuts": 40, "MaxSteps": 30}, "MBTInit", "MBTNext")
+        beh = []
+        for j in range(3 if thorough else 1):
+            beh += ctx.tlc_simulate("prims", "SemaphoreMBT.tla", "Semaphore_simgen.cfg", depth=(30000 if thorough else 9000),
+                                    seed=ctx.seed * 1000 + 200 + i * 10 + j, files={"Semaphore_simgen.cfg": cfg})
+        nb += len(beh)
+        ctx.absorb(ctx.run_engine(binary, "TestSemaphoreReplay", {"size": size, "behaviours": beh}), "prims", "TestSemaphoreReplay")
+    ctx.coverage["semaphore_behaviours_replayed"] = nb
+    if diverged(ctx, nv, "semaphore"):
+        return
+    tf = os.path.join(ctx.scratch, "semaphore.ndjson")
+    res = ctx.run_engine(binary, "TestSemaphoreConcurrent",
+                         {"out": tf, "trace_rounds": 30 if thorough else 10, "monitor_rounds": 100 if thorough else 20}, timeout=1500)
+    ctx.absorb(res, "prims", "TestSemaphoreConcurrent")
+    validate_trace(ctx, "SemaphoreTrace.tla", "SemaphoreTrace.cfg", tf, res["stats"]["rounds"], "semaphore", "TestSemaphoreConcurrent")
+
+
+# ------------------------------------------------------------------------------- retry
+def retry(ctx, binary):
+    thorough = not ctx.quick()
+    for cfg in ("Retry_quick.cfg", "Retry_nop.cfg", "Retry_zero.cfg"):
+        ctx.tlc_check("prims", "MCRetry.tla", cfg, timeout=1200, label="Retry safety " + cfg)
+    ctx.tlc_check("prims", "MCRetry.tla", "Retry_live.cfg", timeout=1200, label="Retry liveness (fair)")
+    nv = len(ctx.violations) + len(ctx.known_hits)
+    nb = 0
+    ladder = [10, 20, 40]  # MCRetry.MCLadder
+    shapes = [dict(max_retries=4, min_wait=4, max_wait=20, exp=True), dict(max_retries=3, min_wait=4, max_wait=20, exp=False),
+              dict(max_retries=0, min_wait=8, max_wait=4, exp=True)]
+    if thorough:
+        shapes += [dict(max_retries=6, min_wait=1, max_wait=50, exp=True), dict(max_retries=2, min_wait=30, max_wait=30, exp=True)]
+    for i, sh in enumerate(shapes):
+        cfg = ("CONSTANTS MaxRetries = %d MinWait = %d MaxWait = %d Exp = %s Ladder <- MCLadder NCallers = 1 MaxGets = 6 MaxSteps = 40\n"
+               "INIT MBTInit\nNEXT MBTNext\nCHECK_DEADLOCK FALSE\n") % (sh["max_retries"], sh["min_wait"], sh["max_wait"], "TRUE" if sh["exp"] else "FALSE")
+        beh = []
+        for j in range(3 if thorough else 1):
+            beh += ctx.tlc_simulate("prims", "RetryMBT.tla", "Retry_simgen.cfg", depth=(24000 if thorough else 8000),
+                                    seed=ctx.seed * 1000 + 300 + i * 10 + j, files={"Retry_simgen.cfg": cfg})
+        nb += len(beh)
+        payload = dict(sh)
+        payload.update({"ladder": ladder, "behaviours": beh})
+        ctx.absorb(ctx.run_engine(binary, "TestRetryReplay", payload), "prims", "TestRetryReplay")
+    ctx.coverage["retry_behaviours_replayed"] = nb
+    if diverged(ctx, nv, "retry"):
+        return
+    ctx.absorb(ctx.run_engine(binary, "TestRetryLoopback", {"rounds": 3 if thorough else 1}, timeout=900), "prims", "TestRetryLoopback")
+
+
+PRIMS = [broadcast, throttler, semaphore, retry]
 
 
 def run(ctx):
